@@ -218,6 +218,14 @@ func (d *Driver) Open() (reterr error) {
 		d.Transport.Args.Port,
 	)
 
+	select {
+	case <-d.done:
+		// opening again after a Close: the done signal of the previous session is used up
+		d.done = make(chan bool)
+		d.closeOnce = sync.Once{}
+	default:
+	}
+
 	err := d.Channel.Open()
 	if err != nil {
 		return err
